@@ -664,3 +664,8 @@ pub fn add_ambient_xargs(rng: &mut Rng, sc: &mut crate::xargs::XargsScenario) {
         sc.extra.ambient.env = env;
     }
 }
+
+/// Byte sequences that mean something to other programs when they open a file (byte-order
+/// marks, `#!`, the gzip signature): at the very start of xargs' input they are argument bytes
+/// like any other.
+pub const MAGIC_PREFIXES: &[&[u8]] = &[b"\xef\xbb\xbf", b"\xef\xbb\xbf", b"\xff\xfe", b"\xfe\xff", b"#!", b"\x1f\x8b", b"\xef\xbb", b"%PDF"];
